@@ -46,14 +46,62 @@ def qopt(x):
     return "(Some %s)" % q(x)
 
 
+def add_gadgets(rng, m):
+    """append structures random generation almost never produces:
+    (a) near-tie: a state with two actions to the same successor whose rewards differ by 2^-k
+        (action gap below/above the residual-implied accuracy, far above the isclose band);
+    (b) late tie: a state p with two actions leading to twin states t1, t2 that share one
+        identical good action but have different bad extra actions -- p's actions tie exactly under
+        optimal play but not under the uniform policy policy iteration starts from."""
+    nonpos = F(m["gamma"]) == 1
+    if m["nA"] < 2:
+        return m
+    tgt = rng.randrange(m["n"])
+    def new_state(actions):
+        m["actions"].append(actions)
+        m["absorbing"].append(False)
+        m["n"] += 1
+        return m["n"] - 1
+    kind = rng.random()
+    base = F(rng.randint(-3, 0 if nonpos else 3))
+    if kind < .5:
+        k = rng.choice([2, 4, 6, 8, 10, 12, 16, 20])
+        s = new_state([0, 1])
+        m["trans"]["%d,0" % s] = [[tgt, "1"]]
+        m["trans"]["%d,1" % s] = [[tgt, "1"]]
+        m["reward"]["%d,0,%d" % (s, tgt)] = str(base)
+        m["reward"]["%d,1,%d" % (s, tgt)] = str(base - F(1, 2 ** k))
+        m["init"] = [[x, str(F(p) / 2)] for x, p in m["init"]] + [[s, "1/2"]]
+    else:
+        t1, t2 = new_state([0, 1]), new_state([0, 1])
+        for t, bad in ((t1, F(2)), (t2, F(5))):
+            m["trans"]["%d,0" % t] = [[tgt, "1"]]
+            m["trans"]["%d,1" % t] = [[tgt, "1"]]
+            m["reward"]["%d,0,%d" % (t, tgt)] = str(base)
+            m["reward"]["%d,1,%d" % (t, tgt)] = str(base - bad)
+        p = new_state([0, 1])
+        m["trans"]["%d,0" % p] = [[t1, "1"]]
+        m["trans"]["%d,1" % p] = [[t2, "1"]]
+        c = F(rng.randint(-2, 0 if nonpos else 2))
+        m["reward"]["%d,0,%d" % (p, t1)] = str(c)
+        m["reward"]["%d,1,%d" % (p, t2)] = str(c)
+        m["init"] = [[x, str(F(q_) / 2)] for x, q_ in m["init"]] + [[p, "1/2"]]
+    m["reward"] = {k_: v for k_, v in m["reward"].items() if F(v) != 0}
+    return m
+
+
 def gen_case(rng, tier):
     r = rng.random()
     gamma = None
     if r < .2:
         gamma = "1"
+    elif r < .35:
+        gamma = rng.choice(["1/5", "1/8", "1/3"])
     nmax = 5 if tier == "quick" else 7
     m = gen_mdp.gen_mdp(rng, nmax=nmax, amax=3, gamma=gamma, proper=(gamma == "1" and rng.random() < .7))
-    eps = rng.choice(["1/100", "1/100000", "1/100000000"]) if rng.random() < .5 else "1/100000"
+    if rng.random() < .4:
+        m = add_gadgets(rng, m)
+    eps = rng.choice(["1/10", "1/100", "1/100000", "1/100000000"]) if rng.random() < .5 else "1/100000"
     mi = rng.choice([100000] * 8 + [1, 2, 5])
     return {"mdp": m, "max_residual": eps, "max_iterations": mi,
             "undefined_value": rng.choice(["0", "0", "-7"]), "explicit_lists": rng.random() < .3}
@@ -215,7 +263,9 @@ def search_failing(case, res, planner, out):
         if masked[s]:
             continue
         best = max(Qs[s][a] for a in range(nA) if av[s][a])
-        slack = 3 * bound + F(1, 10**4) * scale
+        # what theorem C01_policy_support allows: band + 2 qtol + 2 gamma eps/(1-gamma)
+        epsq = eps if planner != "pi" else F(2, 10**5) * scale
+        slack = 2 * g * epsq / (1 - g) + (2 * g * epsq if planner != "vi_vec" else 0) + F(1, 10**4) * scale
         for a in range(nA):
             p = out["pi"][s][a]
             p = vlib.frac(p) if not isinstance(p, str) else None
